@@ -623,7 +623,11 @@ func c13HTTPSplit(c *Ctx) {
 				},
 				EveryCall: func(x *Exec, call *ast.CallExpr, s St) []St {
 					id, ok := call.Fun.(*ast.Ident)
-					if !ok || id.Name != "handler" {
+					if !ok {
+						return []St{s}
+					}
+					// the forwarded handler: a call through a variable of type http.HandlerFunc / func(w, r)
+					if v, isVar := x.Fn.Info.Uses[id].(*types.Var); !isVar || !isHandlerFuncType(v.Type()) {
 						return []St{s}
 					}
 					n++
@@ -656,6 +660,23 @@ func c13HTTPSplit(c *Ctx) {
 	}
 	var base *Base
 	nPut, nRead := 0, 0
+	// locals that hold the request method (m := r.Method), in the handler and its helpers
+	methodTerms := map[string]bool{}
+	for _, hf := range c.P.FuncsInPkg("/server") {
+		hinfo := hf.Pkg.TypesInfo
+		ast.Inspect(hf.Decl, func(n ast.Node) bool {
+			if as, ok := n.(*ast.AssignStmt); ok && len(as.Lhs) == len(as.Rhs) {
+				for i, r := range as.Rhs {
+					if sel, ok := ast.Unparen(r).(*ast.SelectorExpr); ok && sel.Sel.Name == "Method" && strings.HasSuffix(hinfo.TypeOf(sel.X).String(), "net/http.Request") {
+						if o := identObj(hinfo, as.Lhs[i]); o != nil {
+							methodTerms[objID(o)] = true
+						}
+					}
+				}
+			}
+			return true
+		})
+	}
 	base = NewBase(Hooks{
 		Cond: func(x *Exec, cond ast.Expr, truth bool, s St) ([]St, bool) {
 			if call, ok := ast.Unparen(cond).(*ast.CallExpr); ok && calleeKey(x.Fn.Info, call) == "server.(*httpCache).hasValidClientCert" {
@@ -677,8 +698,11 @@ func c13HTTPSplit(c *Ctx) {
 			}
 			method := ""
 			for kk, v := range s.m {
-				if strings.HasPrefix(kk, "p:#\"") && strings.Contains(kk, "\"==m@") && v == "T" {
-					method = kk[4:strings.Index(kk, "\"==")]
+				if strings.HasPrefix(kk, "p:#\"") && strings.Contains(kk, "\"==") && v == "T" {
+					rhs := kk[strings.Index(kk, "\"==")+3:]
+					if methodTerms[rhs] || strings.HasSuffix(rhs, ".Method") {
+						method = kk[4:strings.Index(kk, "\"==")]
+					}
 				}
 			}
 			site := fmt.Sprintf("%s%s:%s#%d", c.Cfg, rootName(x), op, callOrdinal(x, call))
@@ -695,7 +719,8 @@ func c13HTTPSplit(c *Ctx) {
 			}
 			return []St{s}
 		},
-	}, "server.(*httpCache).handleGetValidAC", "server.(*httpCache).handleContainsValidAC")
+	})
+	base.AutoInline = localHelpers(c.P, "/server", "server.(*httpCache).hasValidClientCert")
 	x := NewExec(c.P.FlowOf(fi), base)
 	x.Run(newSt())
 	if x.Aborted != "" {
@@ -715,4 +740,14 @@ func rootName(x *Exec) string {
 		f = f.Outer
 	}
 	return f.Name
+}
+
+// isHandlerFuncType: http.HandlerFunc, http.Handler's method value type or a
+// plain func(http.ResponseWriter, *http.Request).
+func isHandlerFuncType(t types.Type) bool {
+	sig, ok := t.Underlying().(*types.Signature)
+	if !ok || sig.Params().Len() != 2 || sig.Results().Len() != 0 {
+		return false
+	}
+	return strings.HasSuffix(sig.Params().At(0).Type().String(), "net/http.ResponseWriter") && strings.HasSuffix(sig.Params().At(1).Type().String(), "net/http.Request")
 }
